@@ -246,6 +246,17 @@ func VerifC14Decoder() {
 	donl := verifCase("donl", 0, 1) == 1
 	dep := &H265Packet{}
 	dep.WithDONL(donl)
+	if verifCase("used", 0, 1) == 1 {
+		// the receiver has decoded a single NAL unit packet and a starting FU before
+		wu := verifHEVCUnit(3)
+		wd := verifBytes("warm.donl", 2)
+		single, fu := []byte{wu.h0, wu.h1}, []byte{wu.h0&0x81 | 49<<1, wu.h1, 0x80 | wu.typ()}
+		if donl {
+			single, fu = append(single, wd...), append(fu, wd...)
+		}
+		_, _ = dep.Unmarshal(append(single, wu.body...))
+		_, _ = dep.Unmarshal(append(fu, wu.body...))
+	}
 	switch verifCase("form", 0, 2) {
 	case 0:
 		u := verifHEVCUnit(verifCase("size", 3, 5))
@@ -363,4 +374,33 @@ func VerifC14Decoder() {
 		verifCover("C14.dec.fu")
 	}
 	verifCover("C14.decoder.end")
+}
+
+// raw shape of a fragmented unit, F bit included (H265Packet refuses F=1, so the
+// payload bytes are inspected directly): type 49 payload header that keeps F,
+// layer id and TID, FU header with the unit type, S first, E last, body intact
+func VerifC14FUShape() {
+	size := verifPick("size", []int{5, 9})
+	u := verifHEVCUnit(size)
+	u.h0 |= verifU8("F") & 0x80
+	mtu := verifU16("mtu")
+	verifAssume(mtu >= 4)
+	verifAssume(int(mtu) <= size) // at least two fragments (a unit of MTU-1 bytes is KF-C14-single-fragment-fu)
+	pay := &H265Payloader{SkipAggregation: verifCase("skipAggregation", 0, 1) == 1}
+	payloads := pay.Payload(mtu, append([]byte{0, 0, 1}, u.raw()...))
+	verifAssert("C14.shape.at-least-two", len(payloads) >= 2)
+	var body []byte
+	for i, pl := range payloads {
+		verifAssert("C14.shape.mtu", len(pl) <= int(mtu) && len(pl) >= 4)
+		verifAssert("C14.shape.payload-header", pl[0] == u.h0&0x81|49<<1 && pl[1] == u.h1)
+		verifAssert("C14.shape.futype", pl[2]&0x3F == u.typ())
+		verifAssert("C14.shape.S", (pl[2]&0x80 != 0) == (i == 0))
+		verifAssert("C14.shape.E", (pl[2]&0x40 != 0) == (i == len(payloads)-1))
+		body = append(body, pl[3:]...)
+	}
+	verifAssert("C14.shape.body", verifEqBytes(body, u.body))
+	if u.h0&0x80 != 0 {
+		verifCover("C14.shape.F")
+	}
+	verifCover("C14.shape.end")
 }
